@@ -59,14 +59,18 @@ Pop ==
   /\ seq' = <<>> /\ tree' = TPop(tree) /\ res' = Ok(0) /\ UNCHANGED nextId
   /\ Step(<<"pop">>)
 
+\* out-of-range requests: count (+1 for insert) and indices beyond 32 bits, written -(k+1) for 2^32 + k
+\* (TLC integers are 32-bit; the harness translates)
+Big == IF WithReads THEN {-1, -2} ELSE {}
 Growing == Len(hist) < GrowUntil
 Shrinking == Len(hist) >= ShrinkFrom
 Next ==
-  \/ ~Shrinking /\ \E i \in 0..(IF WithReads THEN N + 1 ELSE N), s \in Sizes : Insert(i, s)
+  \/ ~Shrinking /\ \E i \in (0..(IF WithReads THEN N + 1 ELSE N)) \cup Big, s \in Sizes : Insert(i, s)
+  \/ Shrinking /\ N = 0 /\ \E s \in Sizes : Insert(0, s)   \* never deadlock before EmitDepth
   \/ Growing /\ \E s \in Sizes : Insert(N, s)          \* appends: a second insert disjunct biases walks towards growth
-  \/ \E i \in 0..(IF WithReads THEN N ELSE N - 1), s \in Sizes : Set(i, s)
-  \/ ~Growing /\ \E i \in 0..(IF WithReads THEN N ELSE N - 1) : Remove(i)
-  \/ WithReads /\ \E i \in 0..N : Get(i)
+  \/ \E i \in (0..(IF WithReads THEN N ELSE N - 1)) \cup Big, s \in Sizes : Set(i, s)
+  \/ ~Growing /\ \E i \in (0..(IF WithReads THEN N ELSE N - 1)) \cup Big : Remove(i)
+  \/ WithReads /\ \E i \in (0..N) \cup Big : Get(i)
   \/ Pop
 
 Spec == Init /\ [][Next]_mvars
